@@ -1,8 +1,8 @@
 """C03 - a task's exception surfaces exactly once at the wait, after the group stopped.  (DESIGN.md section 4, C03)"""
 from engine.facts import AnalysisBroken, atomic_op, atomic_ops, has_acquire, has_release
 from engine.rules import (calls, calls_named, atomics_on, every_path_passes, last_member, oname, is_call_to, Defs,
-                          resolve_cond_source, edges_where, dominated_by_edges, member_accesses)
-from rules.common import task_classes, k7_task_class, TBB_SRC, TASK_BASE
+                          resolve_cond_source, edges_where, dominated_by_edges, member_accesses, Summaries)
+from rules.common import task_classes, k7_task_class, TBB_SRC, TASK_BASE, exit_coverage
 
 UNITS = ['src/tbb/task_dispatcher.cpp', 'src/tbb/task_group_context.cpp', 'src/tbb/exception.cpp', 'src/tbb/arena.cpp',
          'src/tbb/parallel_pipeline.cpp', 'src/tbb/private_server.cpp', 'src/tbb/task.cpp',
@@ -273,15 +273,22 @@ def handler_calls(facts, handlers, names):
 
 def d5_reset(facts, rep):
     n = 0
+    summ = Summaries(facts, max_depth=4)
+
+    def is_wait(g, pos, e):
+        return isinstance(e, int) and g.nodes[e].get('k') == 'call' and (g.callee(e) or {}).get('n') in ('wait', 'execute_and_wait') and \
+            ((g.callee(e) or {}).get('q') or '').startswith('tbb::detail::')
+
+    def resets(g, pos, e):
+        return isinstance(e, int) and g.nodes[e].get('k') == 'call' and (g.callee(e) or {}).get('q') == D1 + 'task_group_context::reset'
     for fname in (D2 + 'task_group_base::wait', D2 + 'task_group_base::internal_run_and_wait'):
         for fn in facts.get(fname):
-            sites = try_call_sites(facts, fn)
-            ok = any(kind == 'on_completion' and handler_calls(facts, hs, ('reset',)) and
-                     any(calls(b, pred=lambda d: d['n'] in ('wait', 'execute_and_wait')) for b in bodies)
-                     for pos, kind, bodies, hs, node in sites)
-            rep.ob('D5', 'K3', fn, 'the group context is reset on normal and exceptional exit of the wait', ok,
-                   'the context stays cancelled after wait(): the task_group is not reusable (handlers: %s)' %
-                   [(k, [h.q for h in hs]) for _, k, _, hs, _ in sites])
+            nops, normal_ok, exc_ok, notes = exit_coverage(facts, summ, fn, is_wait, resets, 'resets-group-context')
+            if not nops:
+                raise AnalysisBroken('%s: no wait found' % fname)
+            rep.ob('D5', 'K3', fn, 'the group context is reset on normal and exceptional exit of the wait', normal_ok and exc_ok,
+                   'the context stays cancelled after wait(): the task_group is not reusable, a delivered exception is delivered again (%s)'
+                   % '; '.join(notes))
             n += 1
     for fn in facts.get(D2 + 'graph::wait_for_all'):
         sites = try_call_sites(facts, fn)
